@@ -313,38 +313,68 @@ def check_case(case):
 
 
 def check_batched(pair):
-    """two parameter points of the same model stacked along a leading dimension
-    must give the stack of the single evaluations (call convention of the likelihood:
-    t has shape sample_shape + (B, K))."""
+    """two parameter points of the same model stacked along a leading dimension must give
+    the stack of the single evaluations (call convention of the likelihood: t has shape
+    sample_shape + (B, K)); every subset of {frequencies, other parameters} carries the
+    batch dimension, the rest is shared (unbatched)."""
+    out = []
+    for mode in ("all", "rates_only", "freqs_only"):
+        r = _check_batched(pair, mode)
+        if r is None:
+            return None
+        out += [(name + ("" if mode == "all" else "_" + mode), d) for name, d in r]
+    return out
+
+
+def _check_batched(pair, mode):
     import torch
 
     c1, c2 = pair
+    c2 = dict(c2)
     m = c1["model"]
+    nonfreq = [k for k in ("kappa", "rates", "alpha", "beta") if k in c1]
+    if mode == "rates_only":
+        if "pi" in c1:
+            c2["pi"] = c1["pi"]
+        if m == "MG94":
+            c2["freq"] = c1["freq"]
+    elif mode == "freqs_only":
+        for k in nonfreq:
+            c2[k] = c1[k]
+        if m == "MG94" and c1["freq"] == c2["freq"]:
+            return []
+
+    def bat(key, wrap):
+        """batched or shared parameter value"""
+        shared = (mode == "rates_only" and key == "pi") or (mode == "freqs_only" and key != "pi")
+        v1 = [c1[key]] if wrap else c1[key]
+        v2 = [c2[key]] if wrap else c2[key]
+        return v1 if shared else [v1, v2]
+
     try:
         m1, _, pi1, _ = build(c1)
         m2, _, pi2, _ = build(c2)
         n = len(pi1)
         if m == "HKY":
-            spec = {"id": "m", "type": "HKY", "kappa": P("k", [[c1["kappa"]], [c2["kappa"]]]),
-                    "frequencies": P("f", [c1["pi"], c2["pi"]])}
+            spec = {"id": "m", "type": "HKY", "kappa": P("k", bat("kappa", True)),
+                    "frequencies": P("f", bat("pi", False))}
         elif m == "GTR":
-            spec = {"id": "m", "type": "GTR", "rates": P("r", [c1["rates"], c2["rates"]]),
-                    "frequencies": P("f", [c1["pi"], c2["pi"]])}
+            spec = {"id": "m", "type": "GTR", "rates": P("r", bat("rates", False)),
+                    "frequencies": P("f", bat("pi", False))}
         elif m in ("GeneralSymmetric", "GeneralNonSymmetric"):
             codes = list("ACGTE")[: c1["m"]]
             spec = {"id": "m",
                     "type": "GeneralSymmetricSubstitutionModel" if m == "GeneralSymmetric"
                     else "GeneralNonSymmetricSubstitutionModel",
                     "data_type": {"id": "dt", "type": "GeneralDataType", "codes": codes},
-                    "mapping": c1["mapping"], "rates": P("r", [c1["rates"], c2["rates"]]),
-                    "frequencies": P("f", [c1["pi"], c2["pi"]])}
+                    "mapping": c1["mapping"], "rates": P("r", bat("rates", False)),
+                    "frequencies": P("f", bat("pi", False))}
         elif m == "MG94":
+            fr = pi1.tolist() if mode == "rates_only" else [pi1.tolist(), pi2.tolist()]
             spec = {"id": "m", "type": "MG94",
                     "data_type": {"id": "dt", "type": "CodonDataType", "genetic_code": c1["code"]},
-                    "alpha": P("a", [[c1["alpha"]], [c2["alpha"]]]),
-                    "beta": P("b", [[c1["beta"]], [c2["beta"]]]),
-                    "kappa": P("k", [[c1["kappa"]], [c2["kappa"]]]),
-                    "frequencies": P("f", [pi1.tolist(), pi2.tolist()])}
+                    "alpha": P("a", bat("alpha", True)), "beta": P("b", bat("beta", True)),
+                    "kappa": P("k", bat("kappa", True)), "frequencies": P("f", fr)}
         else:
             return None
         ts = [0.0, 0.01, 0.5, 2.0]
@@ -362,7 +392,7 @@ def check_batched(pair):
         return [("batched_shape", f"batched p_t returned shape {got.shape}")]
     e = np.abs(got.reshape(single.shape) - single).max()
     if e > 1e-11:
-        return [("batched_equals_single", f"max diff {e:.3e}")]
+        return [("batched_equals_single", f"{mode}: max diff {e:.3e}")]
     return []
 
 
